@@ -1205,3 +1205,151 @@ fn c16_write_fail_ip_headers() {
         None => assert!(false, "I/O fault reported as something else"),
     }
 }
+
+// ---------------------------------------------------------------------------------------------------------------------------
+// C16 / C06: skipping IPv6 extension headers in a seekable reader (`Ipv6Header::skip_header_extension`,
+// `skip_all_header_extensions`). Reference from RFC 8200 4 / RFC 6564 (generic extension header: next header, length in
+// 8-octet units not counting the first 8), RFC 8200 4.5 (fragment header: always 8 octets), RFC 4302 2.2 (AH: length in
+// 4-octet units minus 2).
+// ---------------------------------------------------------------------------------------------------------------------------
+
+/// Seekable reader over a byte slice whose data ends (or whose device fails) at `fail_at`. Like `std::io::Cursor`, `seek`
+/// never fails for a position behind the end of the data - only the next read shows it.
+struct SeekReader<'a> {
+    data: &'a [u8],
+    pos: u64,
+    fail_at: usize,
+    eof: bool,
+}
+impl Read for SeekReader<'_> {
+    fn read(&mut self, buf: &mut [u8]) -> std::io::Result<usize> {
+        let end = core::cmp::min(self.fail_at, self.data.len()) as u64;
+        if self.pos > end || buf.len() as u64 > end - self.pos {
+            return if self.eof { Ok(0) } else { Err(std::io::Error::from(ErrorKind::Other)) };
+        }
+        let p = self.pos as usize;
+        buf.copy_from_slice(&self.data[p..p + buf.len()]);
+        self.pos += buf.len() as u64;
+        Ok(buf.len())
+    }
+    fn read_exact(&mut self, buf: &mut [u8]) -> std::io::Result<()> {
+        if buf.is_empty() {
+            return Ok(());
+        }
+        match self.read(buf) {
+            Ok(0) => Err(std::io::Error::from(ErrorKind::UnexpectedEof)),
+            Ok(_) => Ok(()),
+            Err(e) => Err(e),
+        }
+    }
+}
+impl std::io::Seek for SeekReader<'_> {
+    fn seek(&mut self, to: std::io::SeekFrom) -> std::io::Result<u64> {
+        let target: i128 = match to {
+            std::io::SeekFrom::Start(n) => n as i128,
+            std::io::SeekFrom::Current(d) => self.pos as i128 + d as i128,
+            std::io::SeekFrom::End(d) => self.data.len() as i128 + d as i128,
+        };
+        if target < 0 || target > u64::MAX as i128 {
+            return Err(std::io::Error::from(ErrorKind::InvalidInput));
+        }
+        self.pos = target as u64;
+        Ok(self.pos)
+    }
+}
+
+/// length of the extension header of kind `n` that starts with the bytes `b` (None: not an extension header that can be skipped)
+fn ref_ext_len(n: u8, b1: u8) -> Option<usize> {
+    match n {
+        44 => Some(8),
+        51 => Some((b1 as usize + 2) * 4),
+        0 | 43 | 60 | 135 | 139 | 140 => Some((b1 as usize + 1) * 8),
+        _ => None,
+    }
+}
+
+/// C16 ("for every point at which the underlying reader fails the operation returns that I/O error - it never reports
+/// success") + C06 ("consumes exactly the header's bytes"), complete for one header: every header kind, every length byte,
+/// data of 0..=24 bytes, fault position anywhere, end-of-data or device fault.
+#[kani::proof]
+fn c16_skip_header_extension() {
+    let b: [u8; 24] = kani::any();
+    let l: usize = kani::any();
+    kani::assume(l <= 24);
+    let fail_at: usize = kani::any();
+    kani::assume(fail_at <= 24);
+    let eof: bool = kani::any();
+    let n: u8 = kani::any();
+    let mut r = SeekReader { data: &b[..l], pos: 0, fail_at, eof };
+    let res = Ipv6Header::skip_header_extension(&mut r, IpNumber(n));
+    let avail = core::cmp::min(l, fail_at);
+    match ref_ext_len(n, b[1]) {
+        None => {
+            assert!(matches!(res, Ok(x) if x.0 == n), "a number that is no skippable extension header must be handed back unchanged");
+            assert!(r.pos == 0, "nothing may be consumed for a non-extension number");
+        }
+        Some(hl) => {
+            if hl <= avail {
+                assert!(matches!(res, Ok(x) if x.0 == b[0]), "complete header: its next-header byte is returned");
+                assert!(r.pos == hl as u64, "exactly the header's bytes are consumed");
+            } else {
+                match res {
+                    Ok(_) => assert!(false, "the data ends (or the reader fails) inside the header: success must not be reported"),
+                    Err(e) => assert!(e.kind() == if eof { ErrorKind::UnexpectedEof } else { ErrorKind::Other }, "the reader's fault must surface"),
+                }
+            }
+            kani::cover!(hl <= avail && n == 44);
+            kani::cover!(hl > avail && n == 44 && avail >= 1);
+            kani::cover!(hl <= avail && n == 51);
+            kani::cover!(hl > avail && n == 60 && avail >= 2);
+        }
+    }
+    kani::cover!(ref_ext_len(n, b[1]).is_none());
+}
+
+/// same for a whole chain (bounded: data <= 32 bytes, i.e. at most 4 headers): `skip_all_header_extensions` returns the first
+/// number that is no skippable extension header with exactly the chain consumed, or the reader's fault.
+#[kani::proof]
+#[kani::unwind(6)]
+fn c16_skip_all_header_extensions() {
+    let b: [u8; 32] = kani::any();
+    let l: usize = kani::any();
+    kani::assume(l <= 32);
+    let eof: bool = kani::any();
+    let n0: u8 = kani::any();
+    let mut r = SeekReader { data: &b[..l], pos: 0, fail_at: 32, eof };
+    let res = Ipv6Header::skip_all_header_extensions(&mut r, IpNumber(n0));
+    // reference walk
+    let mut n = n0;
+    let mut pos = 0usize;
+    let mut fault = false;
+    let mut steps = 0;
+    while steps < 5 {
+        let b1 = if pos + 1 < l { b[pos + 1] } else { 0 };
+        match ref_ext_len(n, b1) {
+            None => break,
+            Some(hl) => {
+                if pos + 2 > l && n != 44 || pos + hl > l {
+                    fault = true;
+                    break;
+                }
+                n = b[pos];
+                pos += hl;
+            }
+        }
+        steps += 1;
+    }
+    kani::assume(steps < 5);
+    if fault {
+        match res {
+            Ok(_) => assert!(false, "chain cut short: success must not be reported"),
+            Err(e) => assert!(e.kind() == if eof { ErrorKind::UnexpectedEof } else { ErrorKind::Other }),
+        }
+    } else {
+        assert!(matches!(res, Ok(x) if x.0 == n), "the first non-extension number ends the walk");
+        assert!(r.pos == pos as u64, "exactly the chain is consumed");
+    }
+    kani::cover!(!fault && steps == 0);
+    kani::cover!(!fault && steps == 2);
+    kani::cover!(fault && steps == 1);
+}
